@@ -1109,7 +1109,18 @@ static Verdict runDet(const Case& c)
             // scales again and thereby starts like the first solve of a fresh object (same root cause)
             e.count(std::string("excluded_known.") + K_FRESH + ".rescaled_between_resolves");
          }
-         else if(ra3 != ra2) v.fail("determinism: third solve after clearBasis() ends differently from the second solve after clearBasis(): " + ra2 + " vs " + ra3);
+         else if(ra3 != ra2)
+         {
+            // known finding resolve-numerical-state-persists: different pivoting paths of consecutive re-solves; if one of them
+            // ends without a verdict (abort by cycling, singular basis) that is a completeness matter of that solve (C01/C02)
+            auto verdict = [](const std::string & r)
+            {
+               return r == "status OPTIMAL" || r == "status INFEASIBLE" || r == "status UNBOUNDED" || r == "status INForUNBD";
+            };
+            if(knownKey("resolve-numerical-state-persists") && !(verdict(ra2) && verdict(ra3)))
+               e.count("excluded_known.resolve-numerical-state-persists.one_side_without_verdict");
+            else v.fail("determinism: third solve after clearBasis() ends differently from the second solve after clearBasis(): " + ra2 + " vs " + ra3);
+         }
          else
          {
             std::string d = firstDiff(oa2, oa3, TWIN_GROUPS, "second", "third");
